@@ -158,14 +158,22 @@ Definition all_filter_ok (mi : modinfo) (n : name) : bool :=
   | None => true
   end.
 
-(* does node b bind n according to the loop at tracing.py:257-322 (rec answers the star case) *)
-Definition t_match (rec : modname -> name -> bool) (n : name) (b : binding) : bool :=
+(* a star import of m' is looked into for n only if n has no leading underscore or m' defines
+   __all__ (the repaired check in the star branch of trace_origin) *)
+Definition star_ok (g : graph) (m' : modname) (n : name) : bool :=
+  match find_mod g m' with
+  | None => false
+  | Some mi' => match has_all mi' with Some _ => true | None => negb (private n) end
+  end.
+
+(* does node b bind n according to the loop of trace_origin (rec answers the star case) *)
+Definition t_match (g : graph) (rec : modname -> name -> bool) (n : name) (b : binding) : bool :=
   match b with
   | Def x => x =? n
   | Assign x => x =? n
   | From _ _ a => a =? n
   | Import _ a d => negb d && (a =? n)      (* `import p.q` is compared with the full dotted name *)
-  | Star m' => rec m' n
+  | Star m' => star_ok g m' n && rec m' n
   end.
 
 (* trace_origin(n, source of m, __all__=True) is not None;  fuel = recursion depth *)
@@ -175,14 +183,14 @@ Fixpoint t_has (fuel : nat) (g : graph) (m : modname) (n : name) : bool :=
   | S f =>
     match find_mod g m with
     | None => false                        (* _trace_module_source_file returned None: skipped *)
-    | Some mi => all_filter_ok mi n && existsb (t_match (t_has f g) n) (body mi)
+    | Some mi => all_filter_ok mi n && existsb (t_match g (t_has f g) n) (body mi)
     end
   end.
 
 (* the node trace_origin returns: the LAST matching one in line order *)
 Definition t_trace (fuel : nat) (g : graph) (flag : bool) (mi : modinfo) (n : name) : option binding :=
   if flag && negb (all_filter_ok mi n) then None
-  else find (t_match (t_has fuel g) n) (rev (body mi)).
+  else find (t_match g (t_has fuel g) n) (rev (body mi)).
 
 (* ------------------------------------------------------------------------------------------- *)
 (* 4. tracing.fix_starred_imports (tracing.py:356-393)                                          *)
@@ -201,7 +209,7 @@ Fixpoint insert_nat (x : nat) (l : list nat) : list nat :=
 Definition sort_nat (l : list nat) : list nat := fold_right insert_nat [] l.
 
 (* trace_origin on the client for a non-star node: does it bind n (t_match without the star case) *)
-Definition t_binds (b : binding) (n : name) : bool := t_match (fun _ _ => false) n b.
+Definition t_binds (b : binding) (n : name) : bool := t_match [] (fun _ _ => false) n b.
 
 (* Every referenced name is traced in the client (after the repair: not only the undefined ones).
    Walk the client from its LAST statement: a pending name goes to the last star whose module has
@@ -222,7 +230,9 @@ Definition has_star (bs : list binding) : bool :=
   existsb (fun b => match b with Star _ => true | _ => false end) bs.
 
 Definition fix_starred (fuel : nat) (g : graph) (bs : list binding) (used : list name) : list binding :=
-  if has_star bs then rev (expand_rev (t_has fuel g) (rev bs) (dedup used)) else bs.
+  if has_star bs
+  then rev (expand_rev (fun m n => star_ok g m n && t_has fuel g m n) (rev bs) (dedup used))
+  else bs.
 
 (* ------------------------------------------------------------------------------------------- *)
 (* 5. tracing.fix_reimported_names (tracing.py:396-503)                                         *)
